@@ -14,25 +14,18 @@ pub async fn on_did_open_text_document(
     let uri = params.text_document.uri;
     let text = params.text_document.text;
 
-    // Check if file should be filtered before acquiring locks
-    // Follow lock order: workspace_manager (read) -> analysis (write)
-    let should_process = {
-        let analysis = context.analysis().read().await;
-        let old_file_id = analysis.get_file_id(&uri);
-        if old_file_id.is_some() {
-            true
-        } else {
-            drop(analysis);
-            let workspace_manager = context.workspace_manager().read().await;
-            workspace_manager.is_workspace_file(&uri)
-        }
-    };
-
-    {
+    // Record the editor's text first and unconditionally: a workspace reload snapshots the open
+    // documents and must see every one of them, also a document that is not a workspace file
+    // (yet) - the reload may be what brings it into the workspace. The membership test is made
+    // in the same critical section as the update, so no reload can run between the two.
+    let known_to_analysis = context.analysis().read().await.get_file_id(&uri).is_some();
+    let is_workspace_file = {
         let mut workspace = context.workspace_manager().write().await;
         workspace.sync_open_file(uri.clone(), text.clone());
-    }
+        workspace.is_workspace_file(&uri)
+    };
 
+    let should_process = known_to_analysis || is_workspace_file;
     if !should_process {
         return None;
     }
@@ -95,25 +88,18 @@ pub async fn on_did_change_text_document(
     let uri = params.text_document.uri;
     let text = params.content_changes.first()?.text.clone();
 
-    // Check if file should be filtered before acquiring locks
-    // Follow lock order: workspace_manager (read) -> analysis (write)
-    let should_process = {
-        let analysis = context.analysis().read().await;
-        let old_file_id = analysis.get_file_id(&uri);
-        if old_file_id.is_some() {
-            true
-        } else {
-            drop(analysis);
-            let workspace_manager = context.workspace_manager().read().await;
-            workspace_manager.is_workspace_file(&uri)
-        }
-    };
-
-    {
+    // Record the editor's text first and unconditionally: a workspace reload snapshots the open
+    // documents and must see every one of them, also a document that is not a workspace file
+    // (yet) - the reload may be what brings it into the workspace. The membership test is made
+    // in the same critical section as the update, so no reload can run between the two.
+    let known_to_analysis = context.analysis().read().await.get_file_id(&uri).is_some();
+    let is_workspace_file = {
         let mut workspace = context.workspace_manager().write().await;
         workspace.sync_open_file(uri.clone(), text.clone());
-    }
+        workspace.is_workspace_file(&uri)
+    };
 
+    let should_process = known_to_analysis || is_workspace_file;
     if !should_process {
         return None;
     }
